@@ -387,8 +387,11 @@ def stage_b(ctx, recs):
                                                                     QueryOn='FALSE'), 0.1))
     graphs.append(('S segmented / local', pipe_consts('S_Trees', 'S_QNames', ctx.pick(1, 2), QueryOn='FALSE', seg='S_Contents',
                                                       contents='{"x"}', net='S_Net', ExtComps='<- None', AppParams='<- None'), 0.1))
+    import time
     for n, (label, consts, pq) in enumerate(graphs):
+        t0 = time.time()
         g = dump(cfg('x02-B-%d' % n, consts, ['TypeOK']), workers=4, tag='x02b')
+        t1 = time.time()
         ctx.add_tlc('SchemaTree graph %s (%d states, %d edges)' % (label, len(g.state), g.n_edges), g.tlc)
         paths, left = state_cover_paths(g, 40, ctx.rng)
         if left:
@@ -406,6 +409,8 @@ def stage_b(ctx, recs):
                 report(ctx, 'B ' + label, cfg_of_projection_of_state(g.state[init]), calls, bad)
         ctx.sample({'kind': 'B-path', 'graph': label, 'calls': [to_json_call(g.state[d]['call']) for d in paths[-1][1][:8]]}, limit=3)
         ctx.note('B %s: %d states, %d edges, %d paths, %d actions replayed' % (label, len(g.state), g.n_edges, len(paths), steps))
+        if os.environ.get('X02_TIMING'):
+            print('   B %s: dump %.1fs (TLC %.1fs) replay %.1fs' % (label, t1 - t0, g.tlc.wall, time.time() - t1), flush=True)
 
 
 def cfg_of_projection_of_state(st):
@@ -602,6 +607,8 @@ def judge(ctx, recs, name='x02', batch=1500):
             for r in part:
                 f.write(json.dumps({'cfg': r['cfg'], 'ev': r['ev']}) + '\n')
         r, rej = tlc.validate_traces('SchemaTreeTrace', cfgp, tf, timeout=3000)
+        if os.environ.get('X02_TIMING'):
+            print('   judge: %d traces, %d events, %.1fs' % (len(part), sum(len(x['ev']) for x in part), r.wall), flush=True)
         ctx.add_tlc('SchemaTreeTrace (%d traces, %d events)' % (len(part), sum(len(x['ev']) for x in part)), r)
         if r.violated:
             ctx.violation('X02/trace-invariant/%s' % r.violated, 'invariant %s violated on a recorded history' % r.violated,
